@@ -4,9 +4,10 @@
    Proved here: eval_total_on_typed_partial, for the let-free expression fragment
      names, literals, if, integer + - * and comparisons, string concatenation / equality, boolean and / equality /
      negation, list and set literals, list concatenation (list|list, list|set), set union of int / string sets,
-     string membership in lists and sets, count, where over lists and sets (scope variable typed in the body).
+     string membership in lists and sets, count, where over lists and sets and flatten over lists/sets of lists/sets
+     (scope variable typed in the body), != , division and remainder by a non-zero literal.
    Missing from the full statement: transforms (records, lets, `set of` results), attribute access, calls to other
-   views, flatten, != , division (divisor must be non-zero), unary string.  For those the property is tied by the
+   views, flatten over maps, division by a computed divisor, unary string.  For those the property is tied by the
    correspondence run only. *)
 From Coq Require Import String List ZArith Bool Ascii Lia.
 Import ListNotations.
@@ -56,6 +57,15 @@ Inductive has_type : tenv -> expr -> ty -> Prop :=
 | T_CountSet G a t : has_type G a (TSet t) -> has_type G (ECall ".count" [a]) TInt
 | T_WhereList G l r sv t : has_type G l (TList t) -> has_type ((sv, t) :: G) r TBool -> has_type G (EBin OpWHERE l r sv) (TList t)
 | T_WhereSet G l r sv t : has_type G l (TSet t) -> has_type ((sv, t) :: G) r TBool -> has_type G (EBin OpWHERE l r sv) (TSet t)
+| T_NeInt G l r sv : has_type G l TInt -> has_type G r TInt -> has_type G (EBin OpNE l r sv) TBool
+| T_NeStr G l r sv : has_type G l TStr -> has_type G r TStr -> has_type G (EBin OpNE l r sv) TBool
+| T_NeBool G l r sv : has_type G l TBool -> has_type G r TBool -> has_type G (EBin OpNE l r sv) TBool
+| T_DivLit G l z sv : z <> 0%Z -> has_type G l TInt -> has_type G (EBin OpDIV l (ELit (VInt z)) sv) TInt
+| T_ModLit G l z sv : z <> 0%Z -> has_type G l TInt -> has_type G (EBin OpMOD l (ELit (VInt z)) sv) TInt
+| T_FlattenLL G l r sv t u : has_type G l (TList (TList t)) -> has_type ((sv, t) :: G) r u -> has_type G (EBin OpFLATTEN l r sv) (TList u)
+| T_FlattenLS G l r sv t u : has_type G l (TList (TSet t)) -> has_type ((sv, t) :: G) r u -> has_type G (EBin OpFLATTEN l r sv) (TList u)
+| T_FlattenSL G l r sv t u : has_type G l (TSet (TList t)) -> has_type ((sv, t) :: G) r u -> has_type G (EBin OpFLATTEN l r sv) (TSet u)
+| T_FlattenSS G l r sv t u : has_type G l (TSet (TSet t)) -> has_type ((sv, t) :: G) r u -> has_type G (EBin OpFLATTEN l r sv) (TSet u)
 with has_types : tenv -> list expr -> ty -> Prop :=
 | TS_nil G t : has_types G [] t
 | TS_cons G e es t : has_type G e t -> has_types G es t -> has_types G (e :: es) t.
@@ -152,6 +162,56 @@ Proof.
     eexists _, sc2. split; [reflexivity|]. split.
     + destruct (getB r); cbn [app forallb]; [rewrite Tx|]; exact To.
     + split; [|discriminate]. intros _. destruct xs as [|y ys]; [rewrite (Ee eq_refl); exact E1|apply En; discriminate].
+Qed.
+
+Lemma result_iter_total ev G sv t u rhs (Hr : forall sc, env_ok ((sv, t) :: G) sc -> good ((sv, t) :: G) u (ev sc rhs)) :
+  forall xs sc, forallb (fun x => vtyped x t) xs = true -> env_ok G sc \/ env_ok ((sv, t) :: G) sc ->
+  exists out sc', iter_rhs ev sv rhs keep_result xs sc = Ok (out, sc') /\ forallb (fun x => vtyped x u) out = true
+                  /\ (xs <> [] -> env_ok ((sv, t) :: G) sc') /\ (xs = [] -> sc' = sc).
+Proof.
+  induction xs as [|x xs IH]; intros sc T E; cbn [iter_rhs].
+  - exists [], sc. split; [reflexivity|]. split; [reflexivity|]. split; [intros N; contradiction|reflexivity].
+  - cbn [forallb] in T. apply andb_true_iff in T. destruct T as [Tx Txs].
+    assert (E' : env_ok ((sv, t) :: G) (sset sv x sc)).
+    { destruct E as [E|E]; [apply env_ok_extend; assumption|].
+      intros y t' L. unfold tlookup in L. cbn [assoc] in L. destruct (String.eqb y sv) eqn:Q.
+      - apply String.eqb_eq in Q. subst y. injection L as <-. exists x. split; [apply sget_sset_eq|exact Tx].
+      - apply String.eqb_neq in Q. destruct (E y t') as [w [S W]]; [unfold tlookup; cbn [assoc]; apply String.eqb_neq in Q; rewrite Q; exact L|].
+        exists w. split; [rewrite sget_sset_neq by exact Q; exact S|exact W]. }
+    destruct (Hr _ E') as [r [sc1 [-> [Vr E1]]]]. cbn [bind keep_result].
+    destruct (IH sc1 Txs (or_intror E1)) as [out [sc2 [-> [To [En Ee]]]]]. cbn [bind].
+    eexists _, sc2. split; [reflexivity|]. split.
+    + cbn [app forallb]. rewrite Vr. exact To.
+    + split; [|discriminate]. intros _. destruct xs as [|y ys]; [rewrite (Ee eq_refl); exact E1|apply En; discriminate].
+Qed.
+
+Lemma flat_lists_typed xs t : forallb (fun x => vtyped x (TList t)) xs = true ->
+  exists ys, flat_inner elems_list xs = Some ys /\ forallb (fun x => vtyped x t) ys = true.
+Proof.
+  induction xs as [|x xs IH]; cbn [forallb flat_inner]; [exists []; split; reflexivity|].
+  intros H. apply andb_true_iff in H. destruct H as [Hx Hxs]. destruct (vt_list _ _ Hx) as [l [-> Tl]].
+  destruct (IH Hxs) as [ys [-> Tys]]. cbn [elems_list]. exists (l ++ ys). split; [reflexivity|exact (forallb_app' _ _ _ Tl Tys)].
+Qed.
+Lemma flat_sets_typed xs t : forallb (fun x => vtyped x (TSet t)) xs = true ->
+  exists ys, flat_inner elems_set xs = Some ys /\ forallb (fun x => vtyped x t) ys = true.
+Proof.
+  induction xs as [|x xs IH]; cbn [forallb flat_inner]; [exists []; split; reflexivity|].
+  intros H. apply andb_true_iff in H. destruct H as [Hx Hxs]. destruct (vt_set _ _ Hx) as [l [-> Tl]].
+  destruct (IH Hxs) as [ys [-> Tys]]. cbn [elems_set]. exists (l ++ ys). split; [reflexivity|exact (forallb_app' _ _ _ Tl Tys)].
+Qed.
+Lemma ck_of_lists xs t (mk:list value -> value) : mk = VList \/ mk = VSet -> forallb (fun x => vtyped x (TList t)) xs = true ->
+  contained_kind (mk xs) = Some KNoArg \/ contained_kind (mk xs) = Some KList.
+Proof.
+  intros M H. destruct xs as [|x xs]; [left; destruct M as [-> | ->]; reflexivity|right].
+  cbn [forallb] in H. apply andb_true_iff in H. destruct H as [Hx _]. destruct (vt_list _ _ Hx) as [l [-> _]].
+  destruct M as [-> | ->]; reflexivity.
+Qed.
+Lemma ck_of_sets xs t (mk:list value -> value) : mk = VList \/ mk = VSet -> forallb (fun x => vtyped x (TSet t)) xs = true ->
+  contained_kind (mk xs) = Some KNoArg \/ contained_kind (mk xs) = Some KSet.
+Proof.
+  intros M H. destruct xs as [|x xs]; [left; destruct M as [-> | ->]; reflexivity|right].
+  cbn [forallb] in H. apply andb_true_iff in H. destruct H as [Hx _]. destruct (vt_set _ _ Hx) as [l [-> _]].
+  destruct M as [-> | ->]; reflexivity.
 Qed.
 
 Lemma typed_ints l : forallb (fun x => vtyped x TInt) l = true -> exists zs, l = map VInt zs.
@@ -270,6 +330,127 @@ Proof.
     cbn [bind]. exists (VSet out), sc3. split; [reflexivity|]. split; [exact To|].
     apply (env_ok_restore G sv t sc1 sc2 sc3 E1); [|exact AI].
     destruct xs as [|x0 xs0]; [right; intros y _; rewrite (Ee eq_refl); reflexivity|left; apply En; discriminate].
+  - (* != int *) intros G l r sv _ Hl _ Hr. two Hl Hr k1 k2 F1 F2. intros n sc Hn E. fuel n m.
+    sub F1 m sc E lv sc1 HL VL E1. destruct (vt_int _ VL) as [x ->]. sub F2 m sc1 E1 rv sc2 HR VR E2. destruct (vt_int _ VR) as [y ->].
+    rewrite (ne_strategy _ _ _ _ _ _ _ _ _ HL HR), sem_eq_int. cbn [bind unary_neg]. done E2.
+  - (* != string *) intros G l r sv _ Hl _ Hr. two Hl Hr k1 k2 F1 F2. intros n sc Hn E. fuel n m.
+    sub F1 m sc E lv sc1 HL VL E1. destruct (vt_str _ VL) as [x ->]. sub F2 m sc1 E1 rv sc2 HR VR E2. destruct (vt_str _ VR) as [y ->].
+    rewrite (ne_strategy _ _ _ _ _ _ _ _ _ HL HR), sem_eq_str. cbn [bind unary_neg]. done E2.
+  - (* != bool *) intros G l r sv _ Hl _ Hr. two Hl Hr k1 k2 F1 F2. intros n sc Hn E. fuel n m.
+    sub F1 m sc E lv sc1 HL VL E1. destruct (vt_bool _ VL) as [x ->]. sub F2 m sc1 E1 rv sc2 HR VR E2. destruct (vt_bool _ VR) as [y ->].
+    rewrite (ne_strategy _ _ _ _ _ _ _ _ _ HL HR), sem_eq_bool. cbn [bind unary_neg]. done E2.
+  - (* / literal *) intros G l z sv NZ _ Hl. destruct Hl as [k F]. exists (S (S k)). intros n sc Hn E. fuel n m.
+    sub F m sc E lv sc1 HL VL E1. destruct (vt_int _ VL) as [x ->].
+    assert (HR : eval m vs sc1 (ELit (VInt z)) = Ok (VInt z, sc1)) by (destruct m as [|m']; [lia|reflexivity]).
+    dflt HL HR. rewrite sem_div. apply Z.eqb_neq in NZ. rewrite NZ. done E1.
+  - (* % literal *) intros G l z sv NZ _ Hl. destruct Hl as [k F]. exists (S (S k)). intros n sc Hn E. fuel n m.
+    sub F m sc E lv sc1 HL VL E1. destruct (vt_int _ VL) as [x ->].
+    assert (HR : eval m vs sc1 (ELit (VInt z)) = Ok (VInt z, sc1)) by (destruct m as [|m']; [lia|reflexivity]).
+    dflt HL HR. rewrite sem_mod. apply Z.eqb_neq in NZ. rewrite NZ. done E1.
+  - (* flatten list of lists *) intros G l r sv t u _ Hl _ Hr. two Hl Hr k1 k2 F1 F2. intros n sc Hn E. fuel n m.
+    sub F1 m sc E lv sc1 HL VL E1. destruct (vt_list _ _ VL) as [xs [-> Txs]].
+    unfold eval_binexpr. change (assoc binop_eqb OpFLATTEN strategy_table) with (Some SLhsOverRhs). rewrite HL. cbn [bind].
+    destruct (flat_lists_typed _ _ Txs) as [ys [FI Tys]].
+    destruct (result_iter_total (eval m vs) G sv t u r (fun sc0 E0 => F2 m sc0 ltac:(lia) E0) ys sc1 Tys (or_introl E1))
+      as [out [sc2 [IT [To [En Ee]]]]].
+    destruct xs as [|x0 xs0].
+    + cbn [flat_inner] in FI. injection FI as <-. cbn [contained_kind kind_of].
+      match goal with |- context [assoc key3_eqb ?k expr_functions] =>
+        let r := eval vm_compute in (assoc key3_eqb k expr_functions) in change (assoc key3_eqb k expr_functions) with r end.
+      cbn [apply_efun elems_list elems_set flat_inner]. rewrite IT. cbn [bind].
+      (destruct (after_iteration where_flatten_scopevar sv (sget sv sc1) sc2) as [sc3| | |] eqn:AI;
+        try (rewrite where_flatten_restores in AI; discriminate));
+      cbn [bind]; exists (VList out), sc3; (split; [reflexivity|]); (split; [exact To|]);
+      (apply (env_ok_restore G sv t sc1 sc2 sc3 E1); [|exact AI]);
+      first [ (right; intros y _; rewrite (Ee eq_refl); reflexivity) | (destruct ys as [|y0 ys0]; [right; intros y _; rewrite (Ee eq_refl); reflexivity|left; apply En; discriminate]) ].
+    + assert (Hx0 := Txs). cbn [forallb] in Hx0. apply andb_true_iff in Hx0. destruct Hx0 as [Hx0 _].
+      destruct (vt_list _ _ Hx0) as [l0 [-> _]]. cbn [contained_kind kind_of].
+      match goal with |- context [assoc key3_eqb ?k expr_functions] =>
+        let r := eval vm_compute in (assoc key3_eqb k expr_functions) in change (assoc key3_eqb k expr_functions) with r end.
+      cbn [apply_efun elems_list elems_set]. rewrite FI, IT. cbn [bind].
+      (destruct (after_iteration where_flatten_scopevar sv (sget sv sc1) sc2) as [sc3| | |] eqn:AI;
+        try (rewrite where_flatten_restores in AI; discriminate));
+      cbn [bind]; exists (VList out), sc3; (split; [reflexivity|]); (split; [exact To|]);
+      (apply (env_ok_restore G sv t sc1 sc2 sc3 E1); [|exact AI]);
+      first [ (right; intros y _; rewrite (Ee eq_refl); reflexivity) | (destruct ys as [|y0 ys0]; [right; intros y _; rewrite (Ee eq_refl); reflexivity|left; apply En; discriminate]) ].
+  - (* flatten list of sets *) intros G l r sv t u _ Hl _ Hr. two Hl Hr k1 k2 F1 F2. intros n sc Hn E. fuel n m.
+    sub F1 m sc E lv sc1 HL VL E1. destruct (vt_list _ _ VL) as [xs [-> Txs]].
+    unfold eval_binexpr. change (assoc binop_eqb OpFLATTEN strategy_table) with (Some SLhsOverRhs). rewrite HL. cbn [bind].
+    destruct (flat_sets_typed _ _ Txs) as [ys [FI Tys]].
+    destruct (result_iter_total (eval m vs) G sv t u r (fun sc0 E0 => F2 m sc0 ltac:(lia) E0) ys sc1 Tys (or_introl E1))
+      as [out [sc2 [IT [To [En Ee]]]]].
+    destruct xs as [|x0 xs0].
+    + cbn [flat_inner] in FI. injection FI as <-. cbn [contained_kind kind_of].
+      match goal with |- context [assoc key3_eqb ?k expr_functions] =>
+        let r := eval vm_compute in (assoc key3_eqb k expr_functions) in change (assoc key3_eqb k expr_functions) with r end.
+      cbn [apply_efun elems_list elems_set flat_inner]. rewrite IT. cbn [bind].
+      (destruct (after_iteration where_flatten_scopevar sv (sget sv sc1) sc2) as [sc3| | |] eqn:AI;
+        try (rewrite where_flatten_restores in AI; discriminate));
+      cbn [bind]; exists (VList out), sc3; (split; [reflexivity|]); (split; [exact To|]);
+      (apply (env_ok_restore G sv t sc1 sc2 sc3 E1); [|exact AI]);
+      first [ (right; intros y _; rewrite (Ee eq_refl); reflexivity) | (destruct ys as [|y0 ys0]; [right; intros y _; rewrite (Ee eq_refl); reflexivity|left; apply En; discriminate]) ].
+    + assert (Hx0 := Txs). cbn [forallb] in Hx0. apply andb_true_iff in Hx0. destruct Hx0 as [Hx0 _].
+      destruct (vt_set _ _ Hx0) as [l0 [-> _]]. cbn [contained_kind kind_of].
+      match goal with |- context [assoc key3_eqb ?k expr_functions] =>
+        let r := eval vm_compute in (assoc key3_eqb k expr_functions) in change (assoc key3_eqb k expr_functions) with r end.
+      cbn [apply_efun elems_list elems_set]. rewrite FI, IT. cbn [bind].
+      (destruct (after_iteration where_flatten_scopevar sv (sget sv sc1) sc2) as [sc3| | |] eqn:AI;
+        try (rewrite where_flatten_restores in AI; discriminate));
+      cbn [bind]; exists (VList out), sc3; (split; [reflexivity|]); (split; [exact To|]);
+      (apply (env_ok_restore G sv t sc1 sc2 sc3 E1); [|exact AI]);
+      first [ (right; intros y _; rewrite (Ee eq_refl); reflexivity) | (destruct ys as [|y0 ys0]; [right; intros y _; rewrite (Ee eq_refl); reflexivity|left; apply En; discriminate]) ].
+  - (* flatten set of lists *) intros G l r sv t u _ Hl _ Hr. two Hl Hr k1 k2 F1 F2. intros n sc Hn E. fuel n m.
+    sub F1 m sc E lv sc1 HL VL E1. destruct (vt_set _ _ VL) as [xs [-> Txs]].
+    unfold eval_binexpr. change (assoc binop_eqb OpFLATTEN strategy_table) with (Some SLhsOverRhs). rewrite HL. cbn [bind].
+    destruct (flat_lists_typed _ _ Txs) as [ys [FI Tys]].
+    destruct (result_iter_total (eval m vs) G sv t u r (fun sc0 E0 => F2 m sc0 ltac:(lia) E0) ys sc1 Tys (or_introl E1))
+      as [out [sc2 [IT [To [En Ee]]]]].
+    destruct xs as [|x0 xs0].
+    + cbn [flat_inner] in FI. injection FI as <-. cbn [contained_kind kind_of].
+      match goal with |- context [assoc key3_eqb ?k expr_functions] =>
+        let r := eval vm_compute in (assoc key3_eqb k expr_functions) in change (assoc key3_eqb k expr_functions) with r end.
+      cbn [apply_efun elems_list elems_set flat_inner]. rewrite IT. cbn [bind].
+      (destruct (after_iteration where_flatten_scopevar sv (sget sv sc1) sc2) as [sc3| | |] eqn:AI;
+        try (rewrite where_flatten_restores in AI; discriminate));
+      cbn [bind]; exists (VSet out), sc3; (split; [reflexivity|]); (split; [exact To|]);
+      (apply (env_ok_restore G sv t sc1 sc2 sc3 E1); [|exact AI]);
+      first [ (right; intros y _; rewrite (Ee eq_refl); reflexivity) | (destruct ys as [|y0 ys0]; [right; intros y _; rewrite (Ee eq_refl); reflexivity|left; apply En; discriminate]) ].
+    + assert (Hx0 := Txs). cbn [forallb] in Hx0. apply andb_true_iff in Hx0. destruct Hx0 as [Hx0 _].
+      destruct (vt_list _ _ Hx0) as [l0 [-> _]]. cbn [contained_kind kind_of].
+      match goal with |- context [assoc key3_eqb ?k expr_functions] =>
+        let r := eval vm_compute in (assoc key3_eqb k expr_functions) in change (assoc key3_eqb k expr_functions) with r end.
+      cbn [apply_efun elems_list elems_set]. rewrite FI, IT. cbn [bind].
+      (destruct (after_iteration where_flatten_scopevar sv (sget sv sc1) sc2) as [sc3| | |] eqn:AI;
+        try (rewrite where_flatten_restores in AI; discriminate));
+      cbn [bind]; exists (VSet out), sc3; (split; [reflexivity|]); (split; [exact To|]);
+      (apply (env_ok_restore G sv t sc1 sc2 sc3 E1); [|exact AI]);
+      first [ (right; intros y _; rewrite (Ee eq_refl); reflexivity) | (destruct ys as [|y0 ys0]; [right; intros y _; rewrite (Ee eq_refl); reflexivity|left; apply En; discriminate]) ].
+  - (* flatten set of sets *) intros G l r sv t u _ Hl _ Hr. two Hl Hr k1 k2 F1 F2. intros n sc Hn E. fuel n m.
+    sub F1 m sc E lv sc1 HL VL E1. destruct (vt_set _ _ VL) as [xs [-> Txs]].
+    unfold eval_binexpr. change (assoc binop_eqb OpFLATTEN strategy_table) with (Some SLhsOverRhs). rewrite HL. cbn [bind].
+    destruct (flat_sets_typed _ _ Txs) as [ys [FI Tys]].
+    destruct (result_iter_total (eval m vs) G sv t u r (fun sc0 E0 => F2 m sc0 ltac:(lia) E0) ys sc1 Tys (or_introl E1))
+      as [out [sc2 [IT [To [En Ee]]]]].
+    destruct xs as [|x0 xs0].
+    + cbn [flat_inner] in FI. injection FI as <-. cbn [contained_kind kind_of].
+      match goal with |- context [assoc key3_eqb ?k expr_functions] =>
+        let r := eval vm_compute in (assoc key3_eqb k expr_functions) in change (assoc key3_eqb k expr_functions) with r end.
+      cbn [apply_efun elems_list elems_set flat_inner]. rewrite IT. cbn [bind].
+      (destruct (after_iteration where_flatten_scopevar sv (sget sv sc1) sc2) as [sc3| | |] eqn:AI;
+        try (rewrite where_flatten_restores in AI; discriminate));
+      cbn [bind]; exists (VSet out), sc3; (split; [reflexivity|]); (split; [exact To|]);
+      (apply (env_ok_restore G sv t sc1 sc2 sc3 E1); [|exact AI]);
+      first [ (right; intros y _; rewrite (Ee eq_refl); reflexivity) | (destruct ys as [|y0 ys0]; [right; intros y _; rewrite (Ee eq_refl); reflexivity|left; apply En; discriminate]) ].
+    + assert (Hx0 := Txs). cbn [forallb] in Hx0. apply andb_true_iff in Hx0. destruct Hx0 as [Hx0 _].
+      destruct (vt_set _ _ Hx0) as [l0 [-> _]]. cbn [contained_kind kind_of].
+      match goal with |- context [assoc key3_eqb ?k expr_functions] =>
+        let r := eval vm_compute in (assoc key3_eqb k expr_functions) in change (assoc key3_eqb k expr_functions) with r end.
+      cbn [apply_efun elems_list elems_set]. rewrite FI, IT. cbn [bind].
+      (destruct (after_iteration where_flatten_scopevar sv (sget sv sc1) sc2) as [sc3| | |] eqn:AI;
+        try (rewrite where_flatten_restores in AI; discriminate));
+      cbn [bind]; exists (VSet out), sc3; (split; [reflexivity|]); (split; [exact To|]);
+      (apply (env_ok_restore G sv t sc1 sc2 sc3 E1); [|exact AI]);
+      first [ (right; intros y _; rewrite (Ee eq_refl); reflexivity) | (destruct ys as [|y0 ys0]; [right; intros y _; rewrite (Ee eq_refl); reflexivity|left; apply En; discriminate]) ].
   - (* [] *) intros G t. exists 0. intros n sc _ E. cbn [eval_seq]. exists [], sc. split; [reflexivity|]. split; [reflexivity|exact E].
   - (* e :: es *) intros G e es t _ He _ Hes. destruct He as [k1 F1]. destruct Hes as [k2 F2]. exists (Nat.max k1 k2).
     intros n sc Hn E. cbn [eval_seq].
